@@ -671,7 +671,8 @@ Qed.
 (* ================================================================ the whole repaired mirror *)
 Definition FA (fx : Z) : Prop :=
   Z.testbit fx 0 = true /\ Z.testbit fx 1 = true /\ Z.testbit fx 2 = true /\ Z.testbit fx 3 = true /\
-  Z.testbit fx 4 = true /\ Z.testbit fx 5 = true /\ Z.testbit fx 6 = true /\ Z.testbit fx 8 = true /\ Z.testbit fx 9 = true.
+  Z.testbit fx 4 = true /\ Z.testbit fx 5 = true /\ Z.testbit fx 6 = true /\ Z.testbit fx 8 = true /\ Z.testbit fx 9 = true /\
+  Z.testbit fx 10 = true.
 Definition DA : Z -> Z -> Z -> Prop := fun _ _ fx => FA fx.
 
 (* for a predicate on the fix mask alone, [sound] is all a bind needs *)
@@ -717,7 +718,7 @@ Proof.
   destruct (enc =? cE_Ultra); [destruct ok; apply safeD_of_safe; [apply safe_dec_ultra; assumption|apply safe_ret; exact I]|].
   destruct (Z.eqb_spec enc cE_UltraZip).
   { destruct ok; [|apply safeD_ret; exact I].
-    eapply safeD_weaken; [|apply safe_dec_ultrazip]. intros W0 H0 fx [(F0 & _ & _ & _ & _ & _ & _ & _ & F9) _]. split; assumption. }
+    eapply safeD_weaken; [|apply safe_dec_ultrazip]. intros W0 H0 fx [(F0 & _ & _ & _ & _ & _ & _ & _ & F9 & _) _]. split; assumption. }
   specialize (Hin n). destruct Hin as [HinW HinH].
   destruct (enc =? cE_TRLE).
   { destruct ok; [|apply safeD_ret; exact I].
@@ -727,11 +728,11 @@ Proof.
   destruct (enc =? cE_Tight).
   { destruct ok; [|apply safeD_ret; exact I].
     eapply safeD_weaken; [|apply safe_dec_tight; assumption].
-    intros W0 H0 fx [(_ & F1 & F2 & F3 & _) [-> ->]]. unfold DT. auto. }
+    intros W0 H0 fx [(_ & F1 & F2 & F3 & _ & _ & _ & _ & _ & F10) [-> ->]]. unfold DT. repeat split; assumption. }
   destruct ((enc =? cE_ZRLE) || (enc =? cE_ZYWRLE)).
   { destruct ok; [|apply safeD_ret; exact I].
     eapply safeD_weaken; [|apply safe_dec_zrle; assumption].
-    intros W0 H0 fx [(_ & _ & _ & _ & _ & F5 & F6 & F8 & _) [-> ->]]. unfold DZ8. auto. }
+    intros W0 H0 fx [(_ & _ & _ & _ & _ & F5 & F6 & F8 & _ & _) [-> ->]]. unfold DZ8. auto. }
   destruct (enc =? cE_QemuExtendedKeyEvent); [apply safeD_ret; exact I|apply safeD_fail].
 Qed.
 
